@@ -177,6 +177,12 @@ func encUnit(ki int, tier string) harness.Unit {
 		if tier == "thorough" {
 			lens = thoroughLens()
 		}
+		var held pu.Held
+		defer func() {
+			if n := held.Changed(); n != "" {
+				c.Violate("earlier-result-changed", "a ciphertext or plaintext returned earlier no longer holds what it held: "+n, nil, nil)
+			}
+		}()
 		for li, L := range lens {
 			msg := pu.Msg(L+ki, L)
 			for ni, nc := range ncs {
@@ -208,6 +214,11 @@ func encUnit(ki int, tier string) harness.Unit {
 						c.Violate("encrypt-error:"+modeNames[mode], fmt.Sprintf("[%s] failed: %v", tag, err), nil, nil)
 						continue
 					}
+					held.Keep("ciphertext "+tag, ct)
+					if n := held.Changed(); n != "" {
+						c.Violate("earlier-result-changed", fmt.Sprintf("[%s] after this call an earlier result no longer holds what it held: %s", tag, n), nil, nil)
+						return
+					}
 					if !bytes.Equal(ct, want) {
 						c.Violate(fmt.Sprintf("encrypt-value:%s:%s:%s", key.Name, nc.name, modeNames[mode]), fmt.Sprintf("[%s] ciphertext %s, GM/T 0003.4 prescribes %s", tag, pu.Hex(ct), pu.Hex(want)), nil, nil)
 					}
@@ -219,6 +230,7 @@ func encUnit(ki int, tier string) harness.Unit {
 					if c.Guard("decrypt-panic:"+modeNames[mode], "decrypt ["+tag+"]", nil, func() { pt, err = libDecrypt(mode, priv, want) }) {
 						continue
 					}
+					held.Keep("plaintext "+tag, pt)
 					if err != nil || !bytes.Equal(pt, msg) {
 						c.Violate(fmt.Sprintf("decrypt-value:%s:%s:%s", key.Name, nc.name, modeNames[mode]), fmt.Sprintf("[%s] decryption of the standard ciphertext returned %s err=%v", tag, pu.Hex(pt), err), nil, nil)
 					}
